@@ -23,6 +23,7 @@ import (
 	"tkestack.io/kvass/pkg/sidecar"
 	"tkestack.io/kvass/pkg/target"
 	"verif/engine/chk"
+	"verif/engine/pipe"
 )
 
 // C09 — a sidecar resumes its acknowledged assignment after restart or crash.
@@ -56,7 +57,10 @@ func c09Catalogue() map[string]map[string][]*target.Target {
 		"e-states":     {"j1": {c09T(5, "e:1", "in_transfer"), c09T(6, "f:1", "")}},
 		"f-other-one":  {"j2": {c09T(7, "g:1", "")}},
 		"g-empty-jobs": {"j1": {}, "j2": {}},
-		"h-large":      large,
+		// labels that carry request parameters, one of them a parameter the job itself sets
+		"i-param-labels": {"j1": {c09T(8, "bb:9115", "", labels.Label{Name: "__param_module", Value: "icmp"}, labels.Label{Name: "__param_target", Value: "https://x.example"}),
+			c09T(9, "bb:9115", "in_transfer", labels.Label{Name: "__param_module", Value: "http_2xx"}, labels.Label{Name: "__param_target", Value: "https://y.example"})}},
+		"h-large": large,
 	}
 }
 
@@ -280,6 +284,42 @@ func init() {
 		} else {
 			pairs = []pair{{"b-one", "b2-one-relabelled"}, {"b-one", "a-empty"}, {"a-empty", "b-one"}, {"b-one", "c-two-jobs"}, {"c-two-jobs", "a-empty"}, {"b-one", "d-escapes"}, {"d-escapes", "e-states"}, {"a-empty", "g-empty-jobs"}, {"e-states", "f-other-one"}, {"b-one", "h-large"}}
 		}
+		// (0) the update callbacks of a real sidecar - the configuration injector, with jobs that set parameters -
+		// run between taking the assignment and storing it: what the next start resumes is what was sent
+		for _, name := range names {
+			idx0 := int64(-1000 - len(name))
+			if c.Part != 0 {
+				break
+			}
+			dir := filepath.Join(base, "inj-"+name)
+			os.MkdirAll(dir, 0o755)
+			info, err := pipe.LoadInfo("scrape_configs:\n- job_name: j1\n  params:\n    module: [http_2xx]\n    debug: [\"true\"]\n  static_configs:\n  - targets: [\"a:1\"]\n- job_name: j2\n  static_configs:\n  - targets: [\"b:1\"]\n")
+			if err != nil {
+				chk.Fatalf("C09 injector config: %v", err)
+			}
+			tm := sidecar.NewTargetsManager(dir, prometheus.NewRegistry(), h1Quiet())
+			if err := tm.Load(); err != nil {
+				chk.Fatalf("C09 load of an empty store: %v", err)
+			}
+			inj := sidecar.NewInjector(filepath.Join(base, "inj-"+name+".yml"), sidecar.InjectConfigOptions{ProxyURL: "http://127.0.0.1:8008"}, prometheus.NewRegistry(), h1Quiet())
+			if err := inj.ApplyConfig(info); err != nil {
+				chk.Fatalf("C09 injector: %v", err)
+			}
+			tm.AddUpdateCallbacks(inj.UpdateTargets)
+			var sent map[string][]*target.Target
+			b, _ := json.Marshal(cat[name])
+			_ = json.Unmarshal(b, &sent)
+			r.States++
+			r.Transitions++
+			if err := tm.UpdateTargets(&shard.UpdateTargetsRequest{Targets: sent}); err != nil {
+				r.Violate("C09:update-fails:with-injector", "update", fmt.Sprintf("update to %s with the injector as callback not acknowledged: %v", name, err), idx0, &c09Replay{Property: "C09", Prev: "(empty store)", Next: name, Detail: err.Error()})
+				continue
+			}
+			if l := c09LoadDir(dir); l.Err != "" || l.Targets != canonTargets(cat[name]) {
+				r.Violate("C09:ack-changed-by-callbacks", "resume-exactly", fmt.Sprintf("%s acknowledged by a sidecar whose injector runs as update callback: the next start resumes something else (%d targets, %s)", name, l.N, l.Err), idx0,
+					&c09Replay{Property: "C09", Clause: "resume-exactly", Prev: "(empty store)", Next: name, Fault: "none; the injector runs as update callback", Loaded: map[string]interface{}{"err": l.Err, "n": l.N, "targets": l.Targets}})
+			}
+		}
 		var idx int64 = -1
 		for _, pr := range pairs {
 			idx++
@@ -368,21 +408,30 @@ func init() {
 			// a rejected update is followed by another assignment (the previous one again) in the same process;
 			// when that one is acknowledged the next start resumes exactly it
 			judgeFollow := func(run func() (string, string), fault interface{}, kind string) {
-				followFile = prevFile
-				dir, out := run()
-				followFile = ""
-				r.Transitions++
-				if !strings.Contains(out, "ACK2") {
-					return // not acknowledged: nothing promised beyond what judge() checked
-				}
-				r.Counters["rejected_update_followed_by_acknowledged_one"]++
-				for round := 0; round < 2; round++ {
-					l := c09LoadDir(dir)
-					rp := &c09Replay{Property: "C09", Clause: "acknowledged-survives", Prev: pr.prev, Next: pr.next + ", then " + pr.prev + " again", Fault: fault, Child: out, Loaded: map[string]interface{}{"err": l.Err, "n": l.N}}
-					if l.Err != "" {
-						r.Violate("C09:start-fails:after-rejected-update:"+kind, "next-start-succeeds", fmt.Sprintf("%s -> %s rejected (fault %v), then %s acknowledged: the next start fails: %s", pr.prev, pr.next, fault, pr.prev, l.Err), idx, rp)
-					} else if l.Targets != canonTargets(prevT) {
-						r.Violate("C09:ack-lost:after-rejected-update:"+kind, "acknowledged-survives", fmt.Sprintf("%s -> %s rejected (fault %v), then %s acknowledged: the next start resumes something else (%d targets)", pr.prev, pr.next, fault, pr.prev, l.N), idx, rp)
+				// the follow-up is the previous assignment again, or the rejected one sent once more (the coordinator
+				// repeats an update that was answered with an error)
+				for _, again := range []bool{false, true} {
+					followFile = prevFile
+					wantT, wantName, tag := prevT, pr.prev, ""
+					if again {
+						followFile = nextFile
+						wantT, wantName, tag = nextT, pr.next, ":same-update-repeated"
+					}
+					dir, out := run()
+					followFile = ""
+					r.Transitions++
+					if !strings.Contains(out, "ACK2") {
+						continue // not acknowledged: nothing promised beyond what judge() checked
+					}
+					r.Counters["rejected_update_followed_by_acknowledged_one"+tag]++
+					for round := 0; round < 2; round++ {
+						l := c09LoadDir(dir)
+						rp := &c09Replay{Property: "C09", Clause: "acknowledged-survives", Prev: pr.prev, Next: pr.next + ", then " + wantName + " again", Fault: fault, Child: out, Loaded: map[string]interface{}{"err": l.Err, "n": l.N}}
+						if l.Err != "" {
+							r.Violate("C09:start-fails:after-rejected-update:"+kind+tag, "next-start-succeeds", fmt.Sprintf("%s -> %s rejected (fault %v), then %s acknowledged: the next start fails: %s", pr.prev, pr.next, fault, wantName, l.Err), idx, rp)
+						} else if l.Targets != canonTargets(wantT) {
+							r.Violate("C09:ack-lost:after-rejected-update:"+kind+tag, "acknowledged-survives", fmt.Sprintf("%s -> %s rejected (fault %v), then %s acknowledged: the next start resumes something else (%d targets)", pr.prev, pr.next, fault, wantName, l.N), idx, rp)
+						}
 					}
 				}
 			}
